@@ -17,7 +17,7 @@ CONSTANTS Ids,        \* e.g. {"A", "B"}
           ValKinds,   \* subset of {"x","y","nan","inf"}
           NFeat,      \* number of feature columns
           MaxRows,
-          IdKinds,    \* subset of {"str","int","cat","negint","float","emptystr","nanid","mixed"}
+          IdKinds,    \* subset of {"str","int","cat","negint","float","emptystr","nanid","mixed","nullint","catnan"}
           TextCols    \* subset of BOOLEAN
 
 VARIABLES table, idkind, text
@@ -39,6 +39,8 @@ BadIds(t, k) == \/ k = "float"                              \* floating identifi
                 \/ (k = "negint" /\ "A" \in IdsIn(t))       \* "A" is a negative integer
                 \/ (k = "emptystr" /\ "A" \in IdsIn(t))     \* "A" is the empty string
                 \/ (k = "nanid" /\ "A" \in IdsIn(t))        \* "A" is missing
+                \/ (k = "nullint" /\ "A" \in IdsIn(t))      \* nullable integer column, "A" is missing (pd.NA)
+                \/ (k = "catnan" /\ "A" \in IdsIn(t))       \* categorical column, "A" is missing
                 \/ (k = "mixed" /\ IdsIn(t) = {"A", "B"})   \* "A" a string, "B" an integer
 BadAge(t) == \E i \in 1..Len(t) : t[i].age \in {"nan", "inf"}
 Dup(t) == \E i, j \in 1..Len(t) : i < j /\ t[i].id = t[j].id /\ Round(t[i].age) = Round(t[j].age)
